@@ -46,10 +46,12 @@ def history(rng, cid, tier):
     style = rng.choice(["smooth", "smooth", "csg", "feature", "feature", "vars"])
     lines = ["case %d" % cid]
     p0 = None
+    tie_pts = []
     if style == "feature":
-        b, root, pts = G.feature_case(rng, rng.choice(["csg", "csg-smooth", "sqrt", "pyramids", "shared"]))
+        b, root, pts = G.feature_case(rng, rng.choice(["csg", "csg-smooth", "sqrt", "pyramids", "shared", "axis", "axis"]))
         lines += b.lines
         p0 = pts[0]
+        tie_pts = pts
         vars_, kind = [], b.kind
     else:
         if style == "csg":
@@ -71,7 +73,8 @@ def history(rng, cid, tier):
     def point():
         lo, hi = boxes[-1]
         if p0 is not None and rng.random() < 0.5:
-            p = tuple(p0[i] + rng.choice([0, 0, 0, 0.125, -0.25, 0.5]) for i in range(3))
+            q0 = rng.choice(tie_pts) if tie_pts else p0         # any of the exact tie points of the case
+            p = tuple(q0[i] + rng.choice([0, 0, 0, 0, 0, 0.125, -0.25, 0.5]) for i in range(3))
             return tuple(gen.f32(c) for c in p)
         return gen.rand_point(rng, lo, hi, lattice=0.4)
 
